@@ -105,6 +105,7 @@ class RunBundler:
         # a seq_num counter per stream
         self._sequence_counters: dict[Any, int] = dict()  # noqa: C408
         self._sequence_counters_copy: dict[Any, int] = dict()  # for if we redo data-points  # noqa: C408
+        self._bundled_streams: set[Any] = set()  # streams filled by create/read/save (the only ones re-taken)
         self._monitor_params: dict[Subscribable, tuple[Callback, dict]] = dict()  # noqa: C408  # cache of {obj: (cb, kwargs)}
         # a cache of stream_resource uid to the data_keys that stream_resource collects for
         self._stream_resource_data_keys: dict[str, Iterable[str]] = dict()  # noqa: C408
@@ -482,14 +483,12 @@ class RunBundler:
             self.emit_sync(DocumentNames.event, doc)
 
     def rewind(self):
-        self._sequence_counters.clear()
-        self._sequence_counters.update(self._sequence_counters_copy)
-        # make sure we do not forget about streams we roll back to the
-        # very beginning of
-        for desc_key in self._descriptor_objs:
-            if desc_key not in self._sequence_counters:
-                self._sequence_counters[desc_key] = 1
-                self._sequence_counters_copy[desc_key] = 1
+        # Only data points bundled by create/read/save are re-taken after a rewind.
+        # Monitor updates, interruption records and collected documents are never
+        # replayed, so their counters must keep counting.
+        for desc_key in self._bundled_streams:
+            # streams we roll back to the very beginning of restart at 1
+            self._sequence_counters[desc_key] = self._sequence_counters_copy.get(desc_key, 1)
 
         # This is needed to 'cancel' an open bundling (e.g. create) if
         # the pause happens after a 'checkpoint', after a 'create', but
@@ -569,6 +568,7 @@ class RunBundler:
         # do have the descriptor cached
         elif frozenset(d_objs) != objs_read:
             raise RuntimeError(f"Mismatched objects read, expected {frozenset(d_objs)!s}, got {objs_read!s}")
+        self._bundled_streams.add(desc_key)
 
         # Resource and Datum documents
         indices_generated = await self._pack_external_assets(self._asset_docs_cache, message_stream_name=desc_key)
